@@ -321,3 +321,46 @@ func zzH_C05_uploadSession() {
 	}
 	verifReach("uploaded")
 }
+
+
+// an OSC52 clipboard sequence that is still open at the end of one read, followed by reads of any length: whatever the
+// clipboard scanner keeps of the earlier read, the bytes forwarded to the terminal are exactly the bytes read
+func zzH_C05_oscSplit() {
+	var c1 []byte
+	for i := verifNondetRange(0, 1); i > 0; i-- {
+		p := verifNondetByte()
+		verifAssume(p != 0x1b && p != '*' && p != ':')
+		c1 = append(c1, p)
+	}
+	c1 = append(c1, "\x1b]52;"...)
+	for i := verifNondetRange(0, verifBound("K")); i > 0; i-- {
+		p := verifNondetByte()
+		verifAssume(p != 0x1b && p != 7 && p != '*' && p != ':')
+		c1 = append(c1, p)
+	}
+	chunks := [][]byte{c1}
+	want := append([]byte{}, c1...)
+	for r := 0; r < verifBound("READS"); r++ {
+		n := verifNondetRange(1, len(c1)+verifBound("EXTRA"))
+		c := make([]byte, n)
+		for i := range c {
+			c[i] = verifNondetByte()
+			verifAssume(c[i] != '*' && c[i] != ':') // no trigger, no zmodem header
+			if i > 0 {
+				verifAssume(c[i-1] != 0x1b || c[i] == '\\') // an escape is the string terminator only
+			}
+		}
+		verifAssume(c[n-1] != 0x1b)
+		chunks = append(chunks, c)
+		want = append(want, c...)
+	}
+	out, in := &zzCap5{}, &zzCap5{}
+	f := &TrzszFilter{clientOut: out, serverIn: in, serverOut: &zzFeed5{chunks: chunks}}
+	f.options.EnableZmodem = verifNondetBool()
+	f.options.EnableOSC52 = true
+	go f.wrapOutput()
+	verifQuiesce()
+	zzSame5(out.got, want, "to terminal")
+	verifAssert(len(in.got) == 0, "wrapper wrote to the remote side on its own")
+	verifReach("osc-split")
+}
